@@ -162,20 +162,34 @@ func setAttID(r *pb.SignBeaconAttestationRequest, name string, key []byte) {
 	}
 }
 
+// signerAPI is the signing surface of an instance as a caller sees it: the handlers of an in-process instance, or a
+// client connection to a daemon process.
+type signerAPI interface {
+	SignBeaconAttestation(ctx context.Context, req *pb.SignBeaconAttestationRequest) (*pb.SignResponse, error)
+	SignBeaconAttestations(ctx context.Context, req *pb.SignBeaconAttestationsRequest) (*pb.MultisignResponse, error)
+	SignBeaconProposal(ctx context.Context, req *pb.SignBeaconProposalRequest) (*pb.SignResponse, error)
+	Sign(ctx context.Context, req *pb.SignRequest) (*pb.SignResponse, error)
+	Multisign(ctx context.Context, req *pb.MultisignRequest) (*pb.MultisignResponse, error)
+}
+
 // Exec sends the operation to the instance through its gRPC handlers (no transport) and
 // returns what a client would have received.
 func (o *Op) Exec(inst *Instance) (res *OpResult) {
+	ctx := inst.ClientCtx(o.Client, o.IP)
+	if o.base != nil {
+		ctx = ClientCtxFrom(o.base, o.Client, o.IP)
+	}
+	return o.ExecVia(ctx, inst.Cfg.Pop, inst.SignerH)
+}
+
+// ExecVia sends the operation through the given signing surface.
+func (o *Op) ExecVia(ctx context.Context, pop *Population, api signerAPI) (res *OpResult) {
 	res = &OpResult{}
 	defer func() {
 		if r := recover(); r != nil {
 			res.Panic = fmt.Sprint(r)
 		}
 	}()
-	pop := inst.Cfg.Pop
-	ctx := inst.ClientCtx(o.Client, o.IP)
-	if o.base != nil {
-		ctx = ClientCtxFrom(o.base, o.Client, o.IP)
-	}
 	one := func(r *pb.SignResponse, err error) {
 		res.Err = err
 		if r != nil {
@@ -198,7 +212,7 @@ func (o *Op) Exec(inst *Instance) (res *OpResult) {
 		name, key := e.addr(pop)
 		req := &pb.SignBeaconAttestationRequest{Domain: e.Domain, Data: e.attData()}
 		setAttID(req, name, key)
-		one(inst.SignerH.SignBeaconAttestation(ctx, req))
+		one(api.SignBeaconAttestation(ctx, req))
 	case "atts":
 		req := &pb.SignBeaconAttestationsRequest{}
 		for i := range o.Entries {
@@ -208,7 +222,7 @@ func (o *Op) Exec(inst *Instance) (res *OpResult) {
 			setAttID(r, name, key)
 			req.Requests = append(req.Requests, r)
 		}
-		many(inst.SignerH.SignBeaconAttestations(ctx, req))
+		many(api.SignBeaconAttestations(ctx, req))
 	case "prop":
 		e := &o.Entries[0]
 		name, key := e.addr(pop)
@@ -219,7 +233,7 @@ func (o *Op) Exec(inst *Instance) (res *OpResult) {
 		} else {
 			req.Id = &pb.SignBeaconProposalRequest_Account{Account: name}
 		}
-		one(inst.SignerH.SignBeaconProposal(ctx, req))
+		one(api.SignBeaconProposal(ctx, req))
 	case "gen":
 		e := &o.Entries[0]
 		name, key := e.addr(pop)
@@ -229,7 +243,7 @@ func (o *Op) Exec(inst *Instance) (res *OpResult) {
 		} else {
 			req.Id = &pb.SignRequest_Account{Account: name}
 		}
-		one(inst.SignerH.Sign(ctx, req))
+		one(api.Sign(ctx, req))
 	case "multi":
 		req := &pb.MultisignRequest{}
 		for i := range o.Entries {
@@ -243,7 +257,7 @@ func (o *Op) Exec(inst *Instance) (res *OpResult) {
 			}
 			req.Requests = append(req.Requests, r)
 		}
-		many(inst.SignerH.Multisign(ctx, req))
+		many(api.Multisign(ctx, req))
 	default:
 		panic("unknown op kind " + o.Kind)
 	}
